@@ -84,10 +84,17 @@ def resolve(f, table=None):
     role = {}
     for kind, r in (("Reference", "reference"), ("Symbol", "symbol"), ("Function", "call_function")):
         names = set()
+        results = set()
         for p in table["rows"].get(kind, []):
             for e in p["events"]:
                 if e[0] == "call" and e[1].split("::")[0] == ctx_base.split("::")[-1]:
-                    names.add(e[1].split("::", 1)[1])
+                    m_ = e[1].split("::", 1)[1]
+                    names.add(m_)
+                    # the lookup proper is the call whose outcome is the node's result
+                    if "%s::%s(" % (ctx_base.split("::")[-1], m_) in str(p["ret"]):
+                        results.add(m_)
+        if len(names) > 1 and len(results) == 1:
+            names = results
         nm = one(names, "context method for %s nodes" % kind)
         role[r] = one([d for d, b in f.bodies.items() if b["name"] == nm and self_of(f, d).split("<")[0] == ctx_base and b["kind"] == "AssocFn"],
                       "context method %s" % nm)
